@@ -400,3 +400,97 @@ Fixpoint escape (sps : list spelling) (s : list N) : list N :=
               | [] => spell Raw c ++ escape [] r
               end
   end.
+
+(* ------------------------------------------------------------------ layout between tokens (lexer.rs read_input, consume_whitespace, consume_comment) *)
+
+Definition in_range (lo hi c : N) : bool := (lo <=? c)%N && (c <=? hi)%N.
+
+Definition is_ws (c : N) : bool :=
+  vertical_space c || (c =? 9)%N || (c =? 32)%N || (c =? 133)%N || (c =? 160)%N || (c =? 5760)%N || (c =? 6158)%N ||
+  in_range 8192 8203 c || (c =? 8232)%N || (c =? 8233)%N || (c =? 8239)%N || (c =? 8287)%N || (c =? 12288)%N || (c =? 65279)%N.
+
+Fixpoint skip_ws (cs : list N) : list N :=
+  match cs with
+  | c :: r => if is_ws c then skip_ws r else cs
+  | [] => []
+  end.
+
+(* after the opening of a block comment: up to and including the first star followed by a slash (or to the end of input) *)
+Fixpoint skip_block (cs : list N) : list N :=
+  match cs with
+  | c :: r => match r with
+              | d :: r' => if (c =? 42)%N && (d =? 47)%N then r' else skip_block r
+              | [] => []
+              end
+  | [] => []
+  end.
+
+(* after the opening of a line comment: up to, not including, the line feed *)
+Fixpoint skip_line (cs : list N) : list N :=
+  match cs with
+  | c :: r => if (c =? 10)%N then cs else skip_line r
+  | [] => []
+  end.
+
+Definition comment_start (cs : list N) : option bool :=     (* Some true: block, Some false: line *)
+  match cs with
+  | c :: d :: _ => if (c =? 47)%N && (d =? 47)%N then Some false else if (c =? 47)%N && (d =? 42)%N then Some true else None
+  | _ => None
+  end.
+
+(* read_input before the next token: white space and comments, as many as there are *)
+Fixpoint skip_layout (fuel : nat) (cs : list N) : list N :=
+  let cs1 := skip_ws cs in
+  match fuel with
+  | O => cs1
+  | S f =>
+    match comment_start cs1 with
+    | Some true => skip_layout f (skip_block (tl (tl cs1)))
+    | Some false => skip_layout f (skip_line (tl (tl cs1)))
+    | None => cs1
+    end
+  end.
+
+(* the original read_input: white space, at most one comment, white space *)
+Definition skip_layout_orig (cs : list N) : list N :=
+  let cs1 := skip_ws cs in
+  match comment_start cs1 with
+  | Some true => skip_ws (skip_block (tl (tl cs1)))
+  | Some false => skip_ws (skip_line (tl (tl cs1)))
+  | None => cs1
+  end.
+
+(* the layout grammar: white space characters, block comments whose body has no star-slash, line comments closed by a line feed *)
+Inductive piece := PWs (c : N) | PBlock (body : list N) | PLine (body : list N).
+
+Fixpoint has_close (b : list N) : bool :=
+  match b with
+  | c :: r => match r with
+              | d :: _ => ((c =? 42)%N && (d =? 47)%N) || has_close r
+              | [] => false
+              end
+  | [] => false
+  end.
+
+Definition piece_ok (p : piece) : bool :=
+  match p with
+  | PWs c => is_ws c
+  | PBlock b => negb (has_close b)
+  | PLine b => forallb (fun c => negb (c =? 10)%N) b
+  end.
+
+Definition render_piece (p : piece) : list N :=
+  match p with
+  | PWs c => [c]
+  | PBlock b => 47%N :: 42%N :: b ++ [42%N; 47%N]
+  | PLine b => 47%N :: 47%N :: b ++ [10%N]
+  end.
+
+Definition render_layout (ps : list piece) : list N := flat_map render_piece ps.
+
+(* what may follow a layout: the end of input, or a character that is neither white space nor the beginning of a comment *)
+Definition token_start (rest : list N) : bool :=
+  match rest with
+  | [] => true
+  | c :: _ => negb (is_ws c) && match comment_start rest with None => true | Some _ => false end
+  end.
